@@ -291,7 +291,13 @@ func c06CloseMark(a *An, closeFn *ssa.Function) {
 			if k, isK := e.V.(*ssa.Const); isK && k.Value != nil {
 				val = k.Value.String()
 			} else if call, isCall := e.V.(*ssa.Call); isCall {
-				if cal := e.Ctx.calleeOf(&call.Call); cal != nil && ro.isIsClosed(cal) {
+				isTest := false
+				if cal := e.Ctx.calleeOf(&call.Call); cal != nil {
+					if i, isT := ro.ChanTesters[cal]; isT && i < len(call.Call.Args) && e.Ctx.fieldOfValue(call.Call.Args[i]) == ro.Done {
+						isTest = true
+					}
+				}
+				if cal := e.Ctx.calleeOf(&call.Call); cal != nil && (ro.isIsClosed(cal) || isTest) {
 					// the answer is isClosed() itself: true is truthful by definition; look at the false case
 					at, neg := e.Ctx.atom(call)
 					if at != nil {
@@ -761,6 +767,14 @@ func c06Writers(a *An) {
 					if args, ok := isBuiltinCall(in, "close"); ok && len(args) == 1 {
 						if f := fieldOf(args[0]); f != nil && chanFields[f] {
 							closes[f] = append(closes[f], a.P.instrPos(in)+" in "+shortFn(fn))
+						}
+					}
+					// a call of a method that closes its channel receiver, on a channel field
+					if call, ok := in.(*ssa.Call); ok && call.Call.StaticCallee() != nil {
+						if i, isC := ro.ChanClosers[call.Call.StaticCallee()]; isC && i < len(call.Call.Args) {
+							if f := fieldOf(call.Call.Args[i]); f != nil && chanFields[f] {
+								closes[f] = append(closes[f], a.P.instrPos(in)+" in "+shortFn(fn))
+							}
 						}
 					}
 				}
